@@ -124,6 +124,14 @@ pub fn world_out(mut w: World, steps: &[Step]) -> CaseOut {
     out.states = std::mem::take(&mut w.distinct_states);
     out.aborted = w.aborted.take();
     out.viols = std::mem::take(&mut w.viols);
+    if let Some(tag) = &w.cfg.retag_as {
+        for v in out.viols.iter_mut() {
+            if v.clause.starts_with("C01.") || v.clause.starts_with("C03.") || v.clause.starts_with("CALL.") {
+                v.msg = format!("[{}] {}", v.clause, v.msg);
+                v.clause = tag.clone();
+            }
+        }
+    }
     out
 }
 
